@@ -114,7 +114,7 @@ const (
 var stateStr = []string{"up", "offline", "tombstone"}
 var hbStr = []string{"connected", "disconnected", "down"}
 var tmpStr = []string{"", "busy", "add-limit", "snapshots", "pending-peers"}
-var useStr = []string{"", "reserved", "hotRegion"}
+var useStr = []string{"", "reserved", "hotRegion", "engine=tiflash"}
 var peerStr = []string{"-", "voter", "leader", "learner"}
 var flagStr = []string{"", "(down)", "(pending)"}
 
@@ -124,7 +124,7 @@ type cond struct {
 	HB    int  `json:"hb,omitempty"`
 	Low   bool `json:"low,omitempty"`
 	Tmp   int  `json:"tmp,omitempty"`
-	Use   int  `json:"use,omitempty"`  // specialUse label: 1 reserved, 2 hotRegion
+	Use   int  `json:"use,omitempty"`  // specialUse label: 1 reserved, 2 hotRegion; 3: the exclusive label engine=tiflash instead (placement rules only)
 	Load  int  `json:"load,omitempty"` // 0 empty store, 1 holds 40 regions; with Low: 2 = only 5 regions on an almost full disk
 }
 
@@ -145,7 +145,9 @@ func (c cond) String() string {
 	if c.Tmp != 0 {
 		l = append(l, tmpStr[c.Tmp])
 	}
-	if c.Use != 0 {
+	if c.Use == 3 {
+		l = append(l, useStr[c.Use])
+	} else if c.Use != 0 {
 		l = append(l, "specialUse="+useStr[c.Use])
 	}
 	if c.Load == 2 {
@@ -231,7 +233,9 @@ func labelsOf(s storeSpec, id uint64) map[string]string {
 		m["zone"] = fmt.Sprintf("z%d", s.Zone)
 		m["host"] = hostName(s, id)
 	}
-	if s.Use != 0 {
+	if s.Use == 3 {
+		m["engine"] = "tiflash" // an exclusive label: only rules that name the key may use the store
+	} else if s.Use != 0 {
 		m["specialUse"] = useStr[s.Use]
 	}
 	return m
@@ -279,6 +283,16 @@ func (in *input) ruleSpecs() (rules []ruleSpec, disjoint bool) {
 }
 
 func (r *ruleSpec) matchLabels(labels map[string]string) bool {
+	if labels["engine"] == "tiflash" {
+		// exclusive label: the store is only for rules that name the key
+		named := false
+		for _, c := range r.Cons {
+			named = named || c.Key == "engine"
+		}
+		if !named {
+			return false
+		}
+	}
 	for _, c := range r.Cons {
 		v := labels[c.Key]
 		in := false
@@ -414,7 +428,7 @@ func putStores(e *env, in *input) {
 		id := in.id(i)
 		var labels []*metapb.StoreLabel
 		lm := labelsOf(s, id)
-		for _, key := range []string{"zone", "host", "specialUse"} {
+		for _, key := range []string{"zone", "host", "specialUse", "engine"} {
 			if v, ok := lm[key]; ok {
 				labels = append(labels, &metapb.StoreLabel{Key: key, Value: v})
 			}
@@ -587,6 +601,8 @@ func (w *world) mayReceive(id uint64) string {
 		return "target-disconnected"
 	case s.Low:
 		return "target-low-space"
+	case s.Use == 3:
+		return "target-exclusive-label" // no rule of the enumerated rule sets names the engine key
 	case s.Use != 0:
 		return "target-special-use"
 	}
@@ -1529,7 +1545,7 @@ func scopes() []*scopeSpec {
 		{name: "rules/4stores/1bad", tiers: "quick", weight: 1.4,
 			desc: "rule checker + CheckRegion with rule sets default-rule / voters(z1|z2)+learner(z3) / voters(any)+learner(z3) / voters(!z3)+voter(z3); 4 stores in 3 zones, count 1..3 x {no labels, [zone], [zone]+isolation zone}; <=1 not-good store (single fault, busy, add-peer limit, specialUse); region <=4 peers with learners, <=1 down or pending",
 			n:    []int{4}, maxReplicas: []int{1, 2, 3}, labelIso: zoneIso, rules: []int{rulesDefault, rulesDisjoint, rulesOverlap, rulesNotIn}, zones: 3,
-			goods: []cond{fresh}, first: cat(singleFaults, tempFaults[:2], useFaults[:1]), maxBad: 1,
+			goods: []cond{fresh}, first: cat(singleFaults, tempFaults[:2], useFaults[:1], []cond{{Use: 3}}), maxBad: 1,
 			maxPeers: 4, learners: true, maxFlags: 1, noJoint: f, desc_: f},
 		{name: "rules/4stores/2bad", tiers: "quick", weight: 1.0,
 			desc: "rule set voters(z1|z2)+learner(z3) with count 2, [zone]+isolation zone; <=2 not-good stores (single fault / busy / add-peer limit / specialUse + offline / tombstone / disconnected / down); joint consensus on/off",
